@@ -209,9 +209,11 @@ func (q *PathQuery) Find() []ssa.Instruction {
 				}
 			}
 			if d, ok := in.(*ssa.Defer); ok {
+				activeFrames, activeBinds = st, n.binds
 				if q.DeferStop != nil && q.DeferStop(d) {
 					top.armed = true
 				}
+				activeFrames, activeBinds = nil, nil
 				if AbsorbedCallee(d) != nil && len(st) <= absorbDepth {
 					top.defs = append(append([]*ssa.Defer{}, top.defs...), d)
 				}
@@ -238,13 +240,17 @@ func (q *PathQuery) Find() []ssa.Instruction {
 			}
 			_, isRet := in.(*ssa.Return)
 			inner := isRet && len(st) > 1 // a helper's own return is not a return of the function under analysis
+			activeFrames, activeBinds = st, n.binds
 			if !inner && q.Stop != nil && q.Stop(in) {
+				activeFrames, activeBinds = nil, nil
 				stopped = true
 				break
 			}
 			if !inner && q.Target(in) {
+				activeFrames, activeBinds = nil, nil
 				return build(n, in)
 			}
+			activeFrames, activeBinds = nil, nil
 			if c, ok := in.(*ssa.Call); ok && len(st) <= absorbDepth {
 				if h := AbsorbedCallee(c); h != nil && !onStack(st, h) {
 					top.i++
@@ -284,8 +290,13 @@ func (q *PathQuery) Find() []ssa.Instruction {
 		ifi, isIf := last.(*ssa.If)
 		for k, s := range b.Succs {
 			if isIf {
-				if q.EdgeOK != nil && !q.EdgeOK(ifi, k == 0) {
-					continue
+				if q.EdgeOK != nil {
+					activeFrames, activeBinds = st, n.binds
+					okEdge := q.EdgeOK(ifi, k == 0)
+					activeFrames, activeBinds = nil, nil
+					if !okEdge {
+						continue
+					}
 				}
 				if v, known := condUnder(ifi.Cond, n.binds); known && v != (k == 0) {
 					continue // the helper's return decides this test
@@ -386,9 +397,26 @@ func condUnder(cond ssa.Value, binds []retBind) (val bool, known bool) {
 		return false, false
 	}
 	c, neg := StripNot(cond)
-	resOf := func(v ssa.Value) (ssa.Value, *ssa.Return, bool) {
+	var resOf func(v ssa.Value) (ssa.Value, *ssa.Return, bool)
+	resOf = func(v ssa.Value) (ssa.Value, *ssa.Return, bool) {
 		v = Unwrap(v)
 		switch x := v.(type) {
+		case *ssa.UnOp:
+			// a variable kept in a cell (captured by a deferred closure): the value stored last before this load in its block
+			if x.Op == token.MUL && CellOf(x.X) != nil {
+				var last ssa.Value
+				for _, in := range x.Block().Instrs {
+					if in == ssa.Instruction(x) {
+						break
+					}
+					if st, ok := in.(*ssa.Store); ok && st.Addr == x.X {
+						last = st.Val
+					}
+				}
+				if last != nil {
+					return resOf(last)
+				}
+			}
 		case *ssa.Extract:
 			if call, ok := x.Tuple.(*ssa.Call); ok {
 				for _, b := range binds {
@@ -433,6 +461,8 @@ func condUnder(cond ssa.Value, binds []retBind) (val bool, known bool) {
 				isNil, decided = false, true
 			} else if _, isMk := Unwrap(rv).(*ssa.MakeClosure); isMk {
 				isNil, decided = false, true
+			} else if ret != nil && usedAsReceiverBefore(Unwrap(rv), ret) {
+				isNil, decided = false, true // a method was already called on it (or a field read) on the way to this return
 			}
 			if !decided {
 				return false, false
@@ -623,14 +653,53 @@ func GuardedBy(x ssa.Instruction, pred func(cond ssa.Value) CondMatch) (*ssa.If,
 // StripNot removes leading boolean negations and reports whether their number was odd.
 func StripNot(v ssa.Value) (ssa.Value, bool) {
 	neg := false
-	for {
+	for d := 0; ; d++ {
 		u, ok := v.(*ssa.UnOp)
 		if !ok || u.Op != token.NOT {
+			// inside a path-search callback: a test of the boolean result of a predicate helper analysed as part of this
+			// function is a test of the expression the helper returned on the path being examined
+			if d < 8 && len(activeBinds) > 0 {
+				if w := boolOnActivePath(v); w != nil {
+					v = w
+					continue
+				}
+			}
 			return v, neg
 		}
 		neg = !neg
 		v = u.X
 	}
+}
+
+// boolOnActivePath: v is the (boolean) result of a finished helper activation of the path being examined and the helper returned
+// a non-constant expression: that expression (nil otherwise).
+func boolOnActivePath(v ssa.Value) ssa.Value {
+	if !isBoolT(v.Type()) {
+		return nil
+	}
+	var call ssa.Value
+	idx := 0
+	switch x := v.(type) {
+	case *ssa.Call:
+		call = x
+	case *ssa.Extract:
+		call, idx = x.Tuple, x.Index
+	default:
+		return nil
+	}
+	for k := len(activeBinds) - 1; k >= 0; k-- {
+		b := activeBinds[k]
+		if c, isC := b.call.(*ssa.Call); isC && ssa.Value(c) == call && idx < len(b.vals) && b.vals[idx] != nil {
+			if _, isConst := b.vals[idx].(*ssa.Const); isConst {
+				return nil
+			}
+			if b.vals[idx] == v {
+				return nil
+			}
+			return b.vals[idx]
+		}
+	}
+	return nil
 }
 
 // MustCallOnAllReturns reports whether every path from `from` (nil = entry) to a normal return executes a call
@@ -767,4 +836,128 @@ func hasRepeatedCond(fn *ssa.Function) bool {
 	}
 	repeatedCondCache[fn] = rep
 	return rep
+}
+
+// activeFrames is the activation stack of the path search while one of its callbacks (EdgeOK, Stop, Target, DeferStop) runs: inside
+// a helper that is analysed as part of several callers a parameter has no unique argument, but on the path being examined it
+// has: the argument at the call that created the activation. Unwrap (and with it Resolve, Arg, …) consults it, so a rule that asks
+// "is this test on the request type?" gets the caller's value although the test was moved into a shared predicate helper.
+var activeFrames []pframe
+
+// boundOnActivePath returns the argument bound to parameter p on the path being examined (nil outside a path-search callback or
+// when p's function is not an activation of the path).
+func boundOnActivePath(p *ssa.Parameter) ssa.Value {
+	for k := len(activeFrames) - 1; k >= 1; k-- {
+		fr := activeFrames[k]
+		if fr.b == nil || fr.b.Parent() != p.Parent() || fr.call == nil {
+			continue
+		}
+		cc := fr.call.Common()
+		if cc.IsInvoke() {
+			return nil
+		}
+		for i, q := range p.Parent().Params {
+			if q == p && i < len(cc.Args) {
+				return cc.Args[i]
+			}
+		}
+		return nil
+	}
+	// the activation already returned: the arguments of the call it was made by (when all finished activations of the helper on
+	// this path were given the same value)
+	var out ssa.Value
+	for _, b := range activeBinds {
+		cc := b.call.Common()
+		if cc.IsInvoke() || cc.StaticCallee() != p.Parent() {
+			continue
+		}
+		for i, q := range p.Parent().Params {
+			if q == p && i < len(cc.Args) {
+				a := cc.Args[i]
+				if out != nil && unwrapNoPath(out) != unwrapNoPath(a) {
+					return nil
+				}
+				out = a
+			}
+		}
+	}
+	return out
+}
+
+// activeBinds: on the path being examined, which Return each finished helper activation came back through (see activeFrames).
+var activeBinds []retBind
+
+// onActivePath replaces a result of a helper call by the value the helper returned on the path being examined (inside a
+// path-search callback; the identity elsewhere): `return helper(…)` then yields the helper's own error value, e.g. a constant nil
+// or an fmt.Errorf, instead of an opaque extract.
+func onActivePath(v ssa.Value) ssa.Value {
+	if v == nil || len(activeBinds) == 0 {
+		return v
+	}
+	for d := 0; d < 4; d++ {
+		ex, ok := v.(*ssa.Extract)
+		if !ok {
+			return v
+		}
+		found := false
+		for k := len(activeBinds) - 1; k >= 0; k-- {
+			b := activeBinds[k]
+			if c, isC := b.call.(*ssa.Call); isC && ssa.Value(c) == ex.Tuple && ex.Index < len(b.vals) && b.vals[ex.Index] != nil {
+				v, found = b.vals[ex.Index], true
+				break
+			}
+		}
+		if !found {
+			return v
+		}
+	}
+	return v
+}
+
+// usedAsReceiverBefore: v (a pointer) is dereferenced – receiver of a static method call, field access – by an instruction that
+// dominates the return: on every path to that return it was not nil.
+func usedAsReceiverBefore(v ssa.Value, ret *ssa.Return) bool {
+	if _, isPtr := v.Type().Underlying().(*types.Pointer); !isPtr {
+		return false
+	}
+	for _, u := range Referrers(v) {
+		if u.Parent() != ret.Parent() {
+			continue
+		}
+		deref := false
+		switch x := u.(type) {
+		case *ssa.Call:
+			if !x.Call.IsInvoke() && len(x.Call.Args) > 0 && x.Call.Args[0] == v {
+				if g := x.Call.StaticCallee(); g != nil && g.Signature.Recv() != nil {
+					deref = true
+				}
+			}
+		case *ssa.FieldAddr:
+			deref = x.X == v
+		case *ssa.UnOp:
+			deref = x.Op == token.MUL && x.X == v
+		}
+		if deref && (u.Block() == ret.Block() && IndexIn(u) < IndexIn(ret) || u.Block() != ret.Block() && u.Block().Dominates(ret.Block())) {
+			return true
+		}
+	}
+	return false
+}
+
+// OnActivePath is onActivePath for rules: inside a Stop/Target/EdgeOK callback, the value a helper's result has on the path being
+// examined.
+func OnActivePath(v ssa.Value) ssa.Value { return onActivePath(v) }
+
+// unwrapNoPath strips conversions only (no path-dependent binding).
+func unwrapNoPath(v ssa.Value) ssa.Value {
+	for {
+		switch x := v.(type) {
+		case *ssa.ChangeType:
+			v = x.X
+		case *ssa.Convert:
+			v = x.X
+		default:
+			return v
+		}
+	}
 }
